@@ -482,6 +482,29 @@ def handleLegacy (j : Json) : P Json := do
       ("arrays", Json.mkObj (l.map (fun (n, a) => (n, arrayValToJson a))))])
   | .error e => pure (errToJson e)
 
+-- ---------- primitive mutations (C18)
+
+def mutOfJson (j : Json) : P Mut := do
+  let m ← strField j "m"
+  let path (k : String) : P (List String) := do strListOfJson (← j.getObjVal? k)
+  match m with
+  | "mkGroup" => pure (.mkGroup (← path "p") (← strField j "n"))
+  | "mkDataset" => pure (.mkDataset (← path "p") (← strField j "n") (← dvalOfJson (← j.getObjVal? "v")))
+  | "setAttr" => pure (.setAttr (← path "p") (← strField j "k") (← avalOfJson (← j.getObjVal? "v")))
+  | "delAttr" => pure (.delAttr (← path "p") (← strField j "k"))
+  | "delete" => pure (.delete (← path "p") (← strField j "n"))
+  | "move" => pure (.move (← path "p") (← strField j "s") (← strField j "d"))
+  | "link" => pure (.link (← path "p") (← strField j "n") (← path "t"))
+  | "setData" => pure (.setData (← path "p") (← dvalOfJson (← j.getObjVal? "v")))
+  | _ => throw ("bad mutation " ++ m)
+
+def handleMutations (j : Json) : P Json := do
+  let f0 ← objOfJson (← j.getObjVal? "h5")
+  let ms ← (← arrField j "muts").mapM mutOfJson
+  let (ff, flags) := replay f0 f0 ms
+  pure (Json.mkObj [("final", objToJson ff),
+    ("flags", Json.arr (flags.map (fun (a, e) => Json.arr #[.bool a, .bool e])).toArray)])
+
 -- ---------- class registry (C06)
 
 partial def memberOfJson (j : Json) : P PyMember := do
@@ -513,6 +536,7 @@ def handle (op : String) (j : Json) : P Json := do
   match op with
   | "registry" => handleRegistry j
   | "legacy" => handleLegacy j
+  | "mutations" => handleMutations j
   | "points" => handlePoints j
   | "md" => handleMd j
   | "array" => handleArray j
